@@ -7,6 +7,7 @@ import (
 	"strings"
 	"sync"
 	"testing"
+	"time"
 
 	"github.com/256dpi/gomqtt/packet"
 
@@ -1205,6 +1206,79 @@ func c11Storm(r *gen.Rng, o *out.W) {
 	o.Sample(fmt.Sprintf("subscribe/retained-publish storm: %d subscribers, %d publishers", nsub, npub))
 }
 
+// the backend is shut down while clients connect, subscribe and publish (C14 "including while the broker is shutting
+// down"): nothing may panic or stay blocked, every connection is released and every session that was set up is
+// terminated exactly once.  Monitors only.
+func c14ShutdownStorm(r *gen.Rng, o *out.W) {
+	nextNoModel = true
+	w := newWorld(o, "C14", 1+r.Intn(3), 2+r.Intn(100), nil)
+	type prog struct {
+		c  int
+		ps []packet.Generic
+	}
+	var progs []prog
+	// some clients are already connected (and subscribed) when the shutdown begins
+	for i, n := 0, r.Intn(3); i < n; i++ {
+		c := w.Conn()
+		w.mustRelease = append(w.mustRelease, c)
+		w.Connect(c, fmt.Sprintf("E%d", i), r.Bool(), nil, 0, "", "")
+		w.Subscribe(c, packet.Subscription{Topic: "s/#", QOS: packet.QOS(r.Intn(3))})
+	}
+	for i, n := 0, 1+r.Intn(4); i < n; i++ {
+		c := w.Conn()
+		w.mustRelease = append(w.mustRelease, c)
+		pr := w.peers[c]
+		pr.clientID, pr.clean = fmt.Sprintf("N%d", i%3), r.Bool()
+		cp := packet.NewConnect()
+		cp.ClientID, cp.CleanSession = pr.clientID, pr.clean
+		if r.Bool() {
+			cp.Will = &packet.Message{Topic: "s/will", Payload: []byte(fmt.Sprintf("will-%d", i)), QOS: packet.QOS(r.Intn(3))}
+			pr.will = cp.Will
+		}
+		ps := []packet.Generic{cp}
+		for j, m := 0, r.Intn(4); j < m; j++ {
+			switch r.Intn(3) {
+			case 0:
+				ps = append(ps, &packet.Subscribe{ID: w.nextPid(c), Subscriptions: []packet.Subscription{{Topic: "s/#", QOS: packet.QOS(r.Intn(3))}}})
+			case 1:
+				w.seq++
+				ps = append(ps, &packet.Publish{ID: w.nextPid(c), Message: packet.Message{Topic: "s/x", QOS: 1, Retain: r.Bool(), Payload: []byte(fmt.Sprintf("m%d", w.seq))}})
+			default:
+				ps = append(ps, &packet.Pingreq{})
+			}
+		}
+		progs = append(progs, prog{c, ps})
+	}
+	var wg sync.WaitGroup
+	for _, pg := range progs {
+		wg.Add(1)
+		go func(pg prog) {
+			defer wg.Done()
+			for _, p := range pg.ps {
+				w.Fire(pg.c, p)
+			}
+		}(pg)
+	}
+	wg.Add(1)
+	go func() {
+		defer wg.Done()
+		w.o.Count("stim/bclose-concurrent")
+		w.record(ev{kind: "bclose"})
+		w.be.Close(time.Second)
+	}()
+	wg.Wait()
+	w.settle()
+	// latecomers after the shutdown
+	for i, n := 0, r.Intn(2); i < n; i++ {
+		c := w.Conn()
+		w.mustRelease = append(w.mustRelease, c)
+		w.Connect(c, "L", r.Bool(), nil, 0, "", "")
+	}
+	w.finish()
+	o.Distinct(fmt.Sprintf("c14 shutdown storm %d", len(progs)))
+	o.Sample(fmt.Sprintf("shutdown storm: %d programs", len(progs)))
+}
+
 // a slow subscriber blocks a publisher and then goes away (C14): the subscriber never acknowledges, its window and its
 // queue fill up, the next matching publish waits inside the backend for room; when the subscriber's connection ends the
 // publisher must be released, the subscriber terminated, and everybody else keeps working.  The model does not cover a
@@ -1549,6 +1623,7 @@ func TestHarness(t *testing.T) {
 			runCase(t, o, "C14 huge topics", func() { c14Huge(r, o) })
 		}
 		sc("C14 concurrent storm", func(r *gen.Rng, o *out.W) { concStorm(r, o, "C14") })
+		sc("C14 shutdown storm", c14ShutdownStorm)
 	case "C15":
 		sc("C15 resume order", c15Resume)
 		rs("C15 ordering", func() profile {
